@@ -117,6 +117,9 @@ def write_replay(prop, name, payload):
 def check_property(prop: str, tier: str, seed: int, level: str = "proof") -> int:
     t0 = time.time()
     os.environ["VERIF_TIER"] = tier
+    import shutil
+
+    shutil.rmtree(os.path.join(ROOT, "replays", prop), ignore_errors=True)
     modname = f"contracts.{prop}"
     mod = importlib.import_module(modname)
     specs = mod.SPECS
@@ -235,14 +238,19 @@ def check_property(prop: str, tier: str, seed: int, level: str = "proof") -> int
     for oid, vs in grouped.items():
         spec = specs[vs[0]["spec_index"]]
         failing = None
+        recheck = None
         chosen = vs[0]
         for v in vs[:6]:
             r = v["r"]
             try:
                 if r.get("model") is not None and hasattr(spec, "replay"):
                     failing = spec.replay(v["inst"], r["model"])
+                    if failing is not None:
+                        recheck = {"kind": "spec", "module": modname, "spec_index": v["spec_index"], "inst": v["inst"], "model": r["model"]}
                 if failing is None and hasattr(spec, "native_search"):
                     failing = spec.native_search(v["inst"], seed)
+                    if failing is not None:
+                        recheck = failing.get("recheck") if isinstance(failing, dict) else None
             except Exception:
                 failing = None
                 r["replay_error"] = traceback.format_exc()[-500:]
@@ -263,7 +271,7 @@ def check_property(prop: str, tier: str, seed: int, level: str = "proof") -> int
         payload = {"property": prop, "obligation": oid, "instance": chosen["inst"],
                    "all_refuted_instances": [v["inst"] for v in vs], "path": r["path"], "goal": r["goal"],
                    "solver": r["backend"], "solver_model_inputs": r.get("model"), "native_failure": failing,
-                   "replay_error": r.get("replay_error"), "outside_known_finding": r.get("outside_known_finding"),
+                   "replay_error": r.get("replay_error"), "outside_known_finding": r.get("outside_known_finding"), "recheck": recheck,
                    "how_to_replay": f"./check {prop} --replay <this file>"}
         path = write_replay(prop, oid, payload)
         suffix = "" if failing else " no-failing-input-found"
@@ -275,7 +283,7 @@ def check_property(prop: str, tier: str, seed: int, level: str = "proof") -> int
             continue
         seen_native.add((name, f.get("key", "")))
         n_viol += 1
-        payload = {"property": prop, "obligation": f"{prop}/bounded/{name}", "native_failure": f,
+        payload = {"property": prop, "obligation": f"{prop}/bounded/{name}", "native_failure": f, "recheck": f.get("recheck"),
                    "how_to_replay": f"./check {prop} --replay <this file>"}
         path = write_replay(prop, f"bounded_{name}_{f.get('key', '')}", payload)
         lines.append(f"VIOLATION property={prop} replay={path}")
